@@ -1,6 +1,7 @@
 // vmapiter: map-iteration-order exploration (built with the patched runtime/map.go overlay).
-//   vmapiter check C01
-//   vmapiter worker            (reads job lines {history, config} on stdin, prints one JSON result per line)
+//
+//	vmapiter check C01
+//	vmapiter worker            (reads job lines {history, config} on stdin, prints one JSON result per line)
 package main
 
 import (
@@ -205,7 +206,7 @@ func checkC01(run *ev.Run) {
 		run.Set("go_statement_sites", gos)
 		run.Assume("x/** contains go statements: the goroutine-scheduling clause is NOT decided for those sites")
 	}
-	histories := []string{"H1", "C02/a"}
+	histories := []string{"H1", "H2", "C02/a"}
 	if !quick {
 		histories = append(histories, "C02/b")
 	}
@@ -423,7 +424,11 @@ func main() {
 	case "worker":
 		workerMain()
 	case "dump":
-		r := runJob(job{ID: 1, History: os.Args[2], Cfg: jobCfg{Hash0: 7, Ordinal: -1}, WantLog: true})
+		cfg := jobCfg{Hash0: 7, Ordinal: -1}
+		if len(os.Args) > 3 {
+			fmt.Sscan(os.Args[3], &cfg.Offset)
+		}
+		r := runJob(job{ID: 1, History: os.Args[2], Cfg: cfg, WantLog: true})
 		for _, it := range r.Items {
 			fmt.Println(it)
 		}
